@@ -52,11 +52,11 @@ func FBP(reftree *tree.Tree, boottrees <-chan tree.Trees, cpus int, sup *Support
 					err = treeV.Err
 					return
 				} else {
-					if inerr = treeV.Tree.ReinitIndexes(); err != nil {
+					if inerr = treeV.Tree.ReinitIndexes(); inerr != nil {
 						err = inerr
 						return
 					}
-					if inerr = reftree.CompareTipIndexes(treeV.Tree); err != nil {
+					if inerr = reftree.CompareTipIndexes(treeV.Tree); inerr != nil {
 						err = inerr
 						return
 					}
